@@ -108,7 +108,7 @@ class Check:
         with open(os.path.join(EVID, self.pid + ".json"), "w") as f:
             json.dump(ev, f, indent=1, default=str)
         for k, n in sorted(self.known_hit.items()):
-            print("KNOWN-FINDING: property=%s %s (%d cases this run; %s)" % (self.pid, k, n, self.known[k].get("what", "")))
+            print("KNOWN-FINDING: property=%s %s (%d cases this run; %s)" % (self.pid, k, n, self.known[k].get("what", "")[:140]))
         print("%s %s seed=%d: %d evaluations, %d distinct non-trivial, %d violations, %d known-finding hits, "
               "%d inconclusive, %.1fs" % (self.pid, self.tier, self.seed, evaluations, distinct_nontrivial,
                                          len(self.violations), sum(self.known_hit.values()), len(self.inconclusive),
